@@ -562,6 +562,12 @@ func drawSnippet(t *rapid.T, name string, e genEnv) []Op {
 			ops = append(ops, Op{K: "recget", B: b, A: a, Src: "rectok", SA: a})
 		}
 		ops = append(ops, Op{K: "recend", B: b, A: a, Src: "rectok", SA: a, S: pick(t, "pw", goodPWs...)})
+		if chance(t, "doublesubmit", 35) {
+			// the same form posted again (double click, back button, a copy of the link on another device): from a session
+			// without a user, so that a second acceptance shows
+			b2 := rapid.IntRange(0, e.nBrows-1).Draw(t, "b2")
+			ops = append(ops, Op{K: "newsess", B: b2}, Op{K: "recend", B: b2, A: a, Src: "rectok", SA: a, S: pick(t, "pw2", goodPWs...)})
+		}
 		if chance(t, "relogin", 50) {
 			ops = append(ops, Op{K: "login", B: b, A: a, Src: pick(t, "which", "pw", "pwold"), SA: a})
 		}
